@@ -4,6 +4,7 @@
 package ev
 
 import (
+	"encoding/binary"
 	"encoding/json"
 	"flag"
 	"fmt"
@@ -325,12 +326,19 @@ func (r *Recorder) Write() {
 		path = filepath.Join(verifRoot, "evidence", r.ID+".json")
 	}
 	if os.Getenv("VERIF_SHARDS") != "" {
+		// the shard's hash set goes to a binary side file (sorted uint64); the runner counts the union
 		hs := make([]uint64, 0, len(r.hashes))
 		for h := range r.hashes {
 			hs = append(hs, h)
 		}
 		sort.Slice(hs, func(i, j int) bool { return hs[i] < hs[j] })
-		out["_hashes"] = hs
+		buf := make([]byte, 8*len(hs))
+		for i, h := range hs {
+			binary.LittleEndian.PutUint64(buf[8*i:], h)
+		}
+		if err := os.WriteFile(path+".hashes", buf, 0o644); err == nil {
+			out["_hashes_file"] = path + ".hashes"
+		}
 	}
 	b, _ := json.MarshalIndent(out, "", " ")
 	os.MkdirAll(filepath.Dir(path), 0o755)
